@@ -1211,4 +1211,221 @@ theorem bcast2_isSome {β γ δ : Type} (f : β → γ → δ) (x : Batch.T β) 
 
 end
 
+/-! ### 10. Structural facts about the model (moved here from `Props/C15`: they hold by construction of the model and
+are not, by themselves, statements about pypose)
+
+* `multi_*`: in the model the clocks of different systems are different entries of a list (`List.set`), so their
+  independence is true by construction. Whether the *code* keeps the clocks of two systems (or of a system and its copy, or a
+  clock and a tensor of the caller) apart is decided by the correspondence streams `multi`, `lin`, `nls` (shared buffers,
+  hooks captured by reference, rebound buffers: seeded changes C15-2, C15-3); these lemmas only say what those streams compare with.
+* `nls_history_alias*`, `alias_*_witness`, `nls_history_code_ok`, `linAt_reproduces`: the historical alias variants of the
+  model (before fixes D32 / D38), kept as witnesses.
+* `lti_history_independent`, `nls_call_history_independent`, `forward_time_injective`: immediate from the definitions. -/
+
+/-- an event on system `j ≠ i` does not touch the clock of system `i` -/
+theorem multi_step_other (ks : List Kind) (cs : List Int) (j : Nat) (e : MEv) (i : Nat) (h : j ≠ i) :
+    (stepMulti ks cs (j, e)).getD i 0 = cs.getD i 0 := by
+  simp [stepMulti, List.getD_eq_getElem?_getD, h]
+
+/-- **Clocks of distinct systems are independent.** For any list of events tagged with a system id — including
+`b.systime = a.systime`, `b.reset(a.systime)`, `ltv.set_refpoint(t=a.systime)`, which copy the *value* the other
+clock has at that moment — the clock of system `i` is the single-system clock machine run on `i`'s own events
+(so `clock_history` holds per system: assigning from another system or from a shared tensor shares nothing). -/
+theorem multi_clock_independent (ks : List Kind) (evs : List (Nat × MEv)) : ∀ (cs : List Int) (i : Nat),
+    i < cs.length →
+    (runMulti ks cs evs).getD i 0
+      = runClock (ks.getD i .lti) (cs.getD i 0) (projEv i (resolveMulti ks cs evs)) := by
+  induction evs with
+  | nil => intro cs i _; simp [runMulti, resolveMulti, projEv, runClock]
+  | cons te r ih =>
+    intro cs i hi
+    have hlen : i < (stepMulti ks cs te).length := by simpa [stepMulti] using hi
+    have h1 : runMulti ks cs (te :: r) = runMulti ks (stepMulti ks cs te) r := by simp [runMulti]
+    rw [h1, ih (stepMulti ks cs te) i hlen]
+    by_cases h : te.1 = i
+    · have e1 : (stepMulti ks cs te).getD i 0 = stepClock (ks.getD i .lti) (cs.getD i 0) (te.2.toEv cs) := by
+        subst h
+        simp [stepMulti, List.getD_eq_getElem?_getD, hi]
+      simp only [resolveMulti, projEv, List.filterMap_cons, h, if_true, e1]
+      simp [runClock]
+    · have e1 : (stepMulti ks cs te).getD i 0 = cs.getD i 0 := multi_step_other ks cs te.1 te.2 i h
+      simp only [resolveMulti, projEv, List.filterMap_cons, h, if_false, e1]
+
+/-- **A copy is a new independent system with the same state.** `sys_i = deepcopy(sys_j)` (or a pickle round trip, or
+`load_state_dict(sys_j.state_dict())` into a fresh object), `i ≠ j`: from then on, whatever events follow on any system,
+the copy's time is the single-system clock machine started at the original's time and run on the copy's own events, and
+the original's time is the same machine run on the original's own events — neither sees the other's calls or resets. -/
+theorem multi_copy_independent (ks : List Kind) (cs : List Int) (i j : Nat) (hij : i ≠ j) (hi : i < cs.length)
+    (hj : j < cs.length) (evs : List (Nat × MEv)) :
+    let cs' := stepMulti ks cs (i, .copyOf j)
+    (runMulti ks cs ((i, .copyOf j) :: evs)).getD i 0
+        = runClock (ks.getD i .lti) (cs.getD j 0) (projEv i (resolveMulti ks cs' evs)) ∧
+    (runMulti ks cs ((i, .copyOf j) :: evs)).getD j 0
+        = runClock (ks.getD j .lti) (cs.getD j 0) (projEv j (resolveMulti ks cs' evs)) := by
+  intro cs'
+  have h1 : runMulti ks cs ((i, .copyOf j) :: evs) = runMulti ks cs' evs := by simp [runMulti, cs']
+  have hl : cs'.length = cs.length := by simp [cs', stepMulti]
+  have ei : cs'.getD i 0 = cs.getD j 0 := by
+    simp [cs', stepMulti, MEv.toEv, stepClock, TArg.trunc, List.getD_eq_getElem?_getD, hi]
+  have ej : cs'.getD j 0 = cs.getD j 0 := multi_step_other ks cs i (.copyOf j) j hij
+  rw [h1]
+  exact ⟨by rw [multi_clock_independent ks evs cs' i (by omega), ei],
+         by rw [multi_clock_independent ks evs cs' j (by omega), ej]⟩
+
+/-- the number of systems never changes -/
+theorem multi_length (ks : List Kind) (evs : List (Nat × MEv)) : ∀ cs : List Int,
+    (runMulti ks cs evs).length = cs.length := by
+  induction evs with
+  | nil => intro cs; simp [runMulti]
+  | cons te r ih =>
+    intro cs
+    have h1 : runMulti ks cs (te :: r) = runMulti ks (stepMulti ks cs te) r := by simp [runMulti]
+    rw [h1, ih]; simp [stepMulti]
+
+/-- different clock values are different times for `f`, `g` (no two integer times are merged, however large) -/
+theorem forward_time_injective (a b : Int) : (ofInt a : ℝ) = ofInt b ↔ a = b := by
+  simp
+
+/-- what the code returns after a successful `set_refpoint` and any later non-`set_refpoint` events:
+the Jacobians are taken at the reference state and input but at `_ref_t`, which is the *current* clock
+when `t` was `None` (or the caller passed `sys.systime`), while `_ref_f`, `_ref_g` are frozen at the
+clock of the `set_refpoint` call. -/
+theorem nls_history_alias (fs gs : List Fn) (S0 : NState ℝ) (pre post : List (NEv ℝ))
+    (x? u? : Option (DVec ℝ)) (tr : TRef ℝ) (x u : DVec ℝ)
+    (hx : orLast x? ((runN true false false fs gs S0 pre).last.map Prod.fst) = some x)
+    (hu : orLast u? ((runN true false false fs gs S0 pre).last.map Prod.snd) = some u)
+    (hpost : ∀ e ∈ post, e.isRef = false) :
+    let c0 := (runN true false false fs gs S0 pre).clock
+    let cnow := runClock .nls c0 (post.map NEv.toEv)
+    readLin fs gs (runN true false false fs gs S0 (pre ++ .refpoint x? u? tr :: post))
+      = some (linAt fs gs x u ((refTOf true c0 tr).value cnow)
+          (evalAll fs (mkEnv x u (refTime c0 tr))) (evalAll gs (mkEnv x u (refTime c0 tr)))) := by
+  intro c0 cnow
+  rw [runN_append, runN_cons]
+  set S := runN true false false fs gs S0 pre with hS
+  obtain ⟨r1, r2, r3, r4, r5, r6⟩ := setRefpoint_ok true false fs gs S x? u? tr x u hx hu
+  have hstep : (stepN true false false fs gs S (.refpoint x? u? tr)).1 = (setRefpoint true fs gs S x? u? tr).1 := rfl
+  rw [hstep]
+  obtain ⟨q1, q2, q3, q4, q5, q6⟩ := runN_nonref true false false fs gs post (setRefpoint true fs gs S x? u? tr).1 hpost (Or.inl rfl)
+  have hv : (refTOf true S.clock tr).value S.clock = refTime S.clock tr := by
+    cases tr <;> simp [refTOf, refTime, RefT.value]
+  unfold readLin
+  rw [q1, q2, q3, q4, q5, q6, r1, r2, r3, r4, r5, r6]
+  simp only [hv]
+  rfl
+
+/-- the code agrees with the documented linearisation when the reference time was given as a fresh
+value, or when the clock has the same value as at `set_refpoint` time -/
+theorem nls_history_alias_ok (fs gs : List Fn) (S0 : NState ℝ) (pre post : List (NEv ℝ))
+    (x? u? : Option (DVec ℝ)) (tr : TRef ℝ) (x u : DVec ℝ)
+    (hx : orLast x? ((runN true false false fs gs S0 pre).last.map Prod.fst) = some x)
+    (hu : orLast u? ((runN true false false fs gs S0 pre).last.map Prod.snd) = some u)
+    (hpost : ∀ e ∈ post, e.isRef = false)
+    (hsafe : (∃ t, tr = .val t) ∨
+      runClock .nls (runN true false false fs gs S0 pre).clock (post.map NEv.toEv) = (runN true false false fs gs S0 pre).clock) :
+    readLin fs gs (runN true false false fs gs S0 (pre ++ .refpoint x? u? tr :: post))
+      = some (linearize fs gs x u (refTime (runN true false false fs gs S0 pre).clock tr)) := by
+  have h := nls_history_alias fs gs S0 pre post x? u? tr x u hx hu hpost
+  simp only at h
+  rw [h]
+  have : (refTOf true (runN true false false fs gs S0 pre).clock tr).value
+      (runClock .nls (runN true false false fs gs S0 pre).clock (post.map NEv.toEv))
+      = refTime (runN true false false fs gs S0 pre).clock tr := by
+    rcases hsafe with ⟨t, rfl⟩ | hc
+    · simp [refTOf, refTime, RefT.value]
+    · rw [hc]; cases tr <;> simp [refTOf, refTime, RefT.value]
+  rw [this, linearize]
+
+/-- even then `c1`, `c2` still make the affine model reproduce the frozen `f(x*,u*,t*)`, `g(x*,u*,t*)` -/
+theorem linAt_reproduces (fs gs : List Fn) (x u : DVec ℝ) (t : ℝ) (f g : DVec ℝ)
+    (hf : f.length = fs.length) (hg : g.length = gs.length) :
+    (linAt fs gs x u t f g).predict x u = (f, g) := by
+  unfold linAt Lin.predict
+  simp only
+  congr 1
+  · apply add_sub_cancel_lists <;> simp [bmv_length, jac_length, hf]
+  · apply add_sub_cancel_lists <;> simp [bmv_length, jac_length, hg]
+
+/-- **Witness of the defect**: `f(x,u,t) = x·t`; `sys(1,0); sys.set_refpoint(); sys(1,0)`. The documented
+reference time is 1 and `∂f/∂x = 1` there, but the code now reports `A = 2` (the Jacobian at the
+current time) together with a `c1` computed from the frozen `f(x*,u*,1)`. -/
+theorem alias_defect_witness :
+    let fs := [Fn.mul (.var 0) (.var 2)]
+    let gs := [Fn.var 0]
+    let evs : List (NEv ℝ) := [.call [(1 : ℝ)] [(0 : ℝ)], .refpoint none none .default, .call [(1 : ℝ)] [(0 : ℝ)]]
+    (readLin fs gs (runN true false false fs gs (NState.init 0 : NState ℝ) evs)).map (·.A) = some ([[(2 : ℝ)]] : DMat ℝ) ∧
+    (readLin fs gs (runN false false false fs gs (NState.init 0 : NState ℝ) evs)).map (·.A) = some ([[(1 : ℝ)]] : DMat ℝ) ∧
+    (linearize fs gs [(1 : ℝ)] [(0 : ℝ)] (1 : ℝ)).A = ([[(1 : ℝ)]] : DMat ℝ) := by
+  refine ⟨?_, ?_, ?_⟩
+  · simp [readLin, runN, stepN, setRefpoint, NState.init, orLast, refTOf, RefT.value, linAt, jac, mkEnv,
+      Fn.D, Fn.eval, Fn.one, Fn.zero]
+  · simp [readLin, runN, stepN, setRefpoint, NState.init, orLast, refTOf, RefT.value, linAt, jac, mkEnv,
+      Fn.D, Fn.eval, Fn.one, Fn.zero]
+  · simp [linearize, linAt, jac, mkEnv, Fn.D, Fn.eval, Fn.one, Fn.zero]
+
+/-- the code before D38 agreed with the documented linearisation as long as the caller does not update, in place, a tensor it
+handed to the system (no `poke` after `set_refpoint`) -/
+theorem nls_history_code_ok (fs gs : List Fn) (S0 : NState ℝ) (pre post : List (NEv ℝ))
+    (x? u? : Option (DVec ℝ)) (tr : TRef ℝ) (x u : DVec ℝ)
+    (hx : orLast x? ((runN false true false fs gs S0 pre).last.map Prod.fst) = some x)
+    (hu : orLast u? ((runN false true false fs gs S0 pre).last.map Prod.snd) = some u)
+    (hpost : ∀ e ∈ post, e.isRef = false) (hpoke : ∀ e ∈ post, e.isPoke = false) :
+    readLin fs gs (runN false true false fs gs S0 (pre ++ .refpoint x? u? tr :: post))
+      = some (linearize fs gs x u (refTime (runN false true false fs gs S0 pre).clock tr)) := by
+  rw [runN_append, runN_cons]
+  set S := runN false true false fs gs S0 pre with hS
+  obtain ⟨r1, r2, r3, r4, r5, _⟩ := setRefpoint_ok false false fs gs S x? u? tr x u hx hu
+  have hstep : (stepN false true false fs gs S (.refpoint x? u? tr)).1 = (setRefpoint false fs gs S x? u? tr).1 := rfl
+  rw [hstep]
+  obtain ⟨q1, q2, q3, q4, q5, _⟩ := runN_nonref false true false fs gs post (setRefpoint false fs gs S x? u? tr).1 hpost
+    (Or.inr hpoke)
+  have hv : ∀ c : Int, (refTOf false S.clock tr).value c = refTime S.clock tr := by
+    intro c; cases tr <;> simp [refTOf, refTime, RefT.value]
+  unfold readLin
+  rw [q1, q2, q3, q4, q5, r1, r2, r3, r4, r5]
+  simp only [hv, linearize]
+
+/-- **Witness of the second aliasing defect**: `f(x,u,t) = x²`; `sys.set_refpoint(x, u, t)` with `x = 1`, then the
+caller re-uses its tensor: `x.add_(2)`. Documented: the reference point stays `x* = 1`, `A = 2`. The code now reports
+`A = 6` (Jacobian at the tensor's new content) with `c1 = f(1) − 6·3 = −17`, so `A·3 + c1 = 1 = f(1) ≠ f(3) = 9`: the
+affine model is exact at neither point. -/
+theorem alias_state_defect_witness :
+    let fs := [Fn.pow (.var 0) 2]
+    let gs := [Fn.var 0]
+    let evs : List (NEv ℝ) := [.refpoint (some [(1 : ℝ)]) (some [(0 : ℝ)]) (.val 0), .poke .refX [(3 : ℝ)]]
+    (readLin fs gs (runN false true false fs gs (NState.init 0 : NState ℝ) evs)).map (fun L => (L.A, L.c1))
+        = some (([[(6 : ℝ)]] : DMat ℝ), ([(-17 : ℝ)] : DVec ℝ)) ∧
+    (readLin fs gs (runN false false false fs gs (NState.init 0 : NState ℝ) evs)).map (fun L => (L.A, L.c1))
+        = some (([[(2 : ℝ)]] : DMat ℝ), ([(-1 : ℝ)] : DVec ℝ)) := by
+  refine ⟨?_, ?_⟩
+  · simp [readLin, runN, stepN, pokeN, setSome, setRefpoint, NState.init, orLast, refTOf, RefT.value, linAt, jac,
+      mkEnv, Fn.D, Fn.eval, Fn.one, Fn.zero, npow, evalAll, bmv, DMat.mulVec, DVec.sub, dot_real]
+    norm_num
+  · simp [readLin, runN, stepN, pokeN, setRefpoint, NState.init, orLast, refTOf, RefT.value, linAt, jac,
+      mkEnv, Fn.D, Fn.eval, Fn.one, Fn.zero, npow, evalAll, bmv, DMat.mulVec, DVec.sub, dot_real]
+    norm_num
+
+/-- an LTI object has no memory: whatever happened before (any clock value), the same `(x, u)` gives the same outputs -/
+theorem lti_history_independent (S : LinSys ℝ) (h : S.kind = .lti) (c c' : Int) (x u : DVec ℝ) :
+    linForward S c x u = linForward S c' x u := by
+  simp [linForward, sliceIdx, h]
+
+/-- the outputs of an NLS call depend on `(x, u)` and the clock only — not on earlier calls, on the reference point,
+or on which semantics of the reference point is in force -/
+theorem nls_call_history_independent (al ax pf al' ax' pf' : Bool) (fs gs : List Fn) (S S' : NState ℝ) (h : S.clock = S'.clock)
+    (x u : DVec ℝ) : (stepN al ax pf fs gs S (.call x u)).2 = (stepN al' ax' pf' fs gs S' (.call x u)).2 := by
+  simp [stepN, h]
+
+example : traceMulti [.lti, .ltv, .nls] [0, 0, 0]
+    [(0, .own (.assign ⟨3, 1⟩)), (1, .assignFrom 0), (0, .own .call), (0, .own (.reset ⟨0, 1⟩)), (1, .own .call),
+     (2, .refFrom 1), (1, .refFrom 0), (1, .resetFrom 2)]
+    = [[3, 0, 0], [3, 3, 0], [4, 3, 0], [0, 3, 0], [0, 4, 0], [0, 4, 0], [0, 0, 0], [0, 0, 0]] := by decide
+
+/-- e.g. `f = t − 16777216` (exact integer arithmetic on the time stamp) tells `2^24` and `2^24 + 1` apart -/
+example : (Fn.sub (.var 2) (.const false 16777216 1)).eval (mkEnv [(0 : ℝ)] [(0 : ℝ)] (ofInt 16777217)) = 1 ∧
+    (Fn.sub (.var 2) (.const false 16777216 1)).eval (mkEnv [(0 : ℝ)] [(0 : ℝ)] (ofInt 16777216)) = 0 := by
+  constructor
+  · simp [Fn.eval, mkEnv]; norm_num
+  · simp [Fn.eval, mkEnv]
+
 end PP.Dyn
